@@ -334,7 +334,7 @@ def run_check(mod, tier, seed, replay=None):
     # check.  The property modules have their own watchdogs around the calls they expect to be able to hang; this one is for
     # everything else.  When it fires the check reports a violation without a failing input and exits.
     import threading
-    limit = int(os.environ.get("VERIF_RUN_LIMIT_S", "1500" if tier == "quick" else "14400"))
+    limit = int(os.environ.get("VERIF_RUN_LIMIT_S", getattr(mod, "RUN_LIMIT_S", {}).get(tier, 1500 if tier == "quick" else 14400)))
 
     def _overrun():
         path = write_replay(prop_id, seed, {"property": prop_id, "tier": tier, "seed": seed, "kind": "unproved",
